@@ -3,12 +3,12 @@
 CONF = dict(
     cmd='c09',
     props='Props/C09.v',
-    rule=('datagrams sent to the real IP and SCION listeners on loopback from twelve sockets (ten ports on the listener address - more than there are listener goroutines, so some share one - and two on another address): all 256 first '
+    rule=('datagrams sent to the real IP and SCION listeners on loopback from 64 sockets (56 source ports on the listener address - the kernel hashes them over the 8 SO_REUSEPORT listener goroutines, so every goroutine serves several - and 8 on another address): all 256 first '
  'header bytes x lengths {0,47,48,49,50,75,76,100} (thorough: 0..50,76,100,1024,2048) with zero/random/server-look-alike/client/interleaved headers and zero/random/'
  'NTS-shaped/second-header trailing data; all lengths 0..64 and 1023..1025, 2047..2049, 2100, 4000; real NTS requests (real cookie, nts.NewRequestPacket) intact '
- 'and damaged in 11 ways (before and after authentication) x valid/invalid first bytes; multi-step histories that reflect observed replies back, follow up in interleaved mode, switch sockets, send bursts of 2-7 datagrams back to back before the sentinel; over '
+ 'and damaged in 11 ways (before and after authentication) x valid/invalid first bytes; multi-step histories that reflect observed replies back, follow up in interleaved mode, switch sockets, send bursts of 2-7 datagrams back to back before the sentinel; fan histories (a valid NTS request from one socket, then plain requests from the same socket and from 4-43 other source ports, with damaged/valid NTS requests and arbitrary payloads mixed in: tags nts-then-plain-same / nts-then-plain-other); over '
  'SCION additionally IPv4/IPv6/service host address mixes, empty/SCION(1-3 segments)/one-hop paths, end-host-port underlay, wrong L4 port. Reply/no reply decided '
- 'by a sentinel request sent afterwards from the same socket. Plus ntp.DecodePacket/ValidateRequest/EncodePacket and handleRequest called directly for every first '
+ 'by a sentinel request sent afterwards from the same socket; the sentinel is itself a well-formed plain request and is judged by the oracle like every other exchange, so a listener that stops answering after some datagram is reported with that history as the failing input (the driver then finishes the history in flight with short waits and stops). Plus ntp.DecodePacket/ValidateRequest/EncodePacket and handleRequest called directly for every first '
  'byte. Non-trivial: the history contains a payload of at least 48 bytes (the decision depends on the first byte / the trailing data) or an NTS / reflected / '
  'interleaved step; distinct = distinct (kind, input)'),
     assumptions=['NTS branch (nts.DecodePacket, FirstCookie, cookie Decode, Provider.Get, Decrypt, nts.ProcessRequest) is one boolean input of the model; its contract: an NTS-valid payload is at most 1024 bytes, an authenticated request gets at least one cookie back (crypto/rand does not fail), nts.EncodePacket emits at most 1024 bytes; the harness recomputes the verdict with the same six exported calls on the same key provider',
@@ -26,7 +26,7 @@ CONF = dict(
  "evaluated on the implementation's observations"),
     level_note=('Trusted: Coq kernel, the hand-written model (validated by the correspondence run), extraction, harness, kernel/scionproto/AEAD as inputs. No axioms '
  '(Closed under the global context).'),
-    explanation='reply/no-reply of the real listeners is observed with a sentinel request; NTS verdict and Path.Reverse are recomputed by the harness with the exported functions the listener calls',
+    explanation='reply/no-reply of the real listeners is observed with a sentinel request; the oracle of a history is C09_hist_ok over the probe and sentinel exchanges of all its steps (C09_history_meets_oracle: it holds for the model on all histories); NTS verdict and Path.Reverse are recomputed by the harness with the exported functions the listener calls',
     timeout_quick=900,
     timeout_thorough=3000,
 )
